@@ -68,21 +68,13 @@ class Env:
     pass
 
 
-def _try(fn):
-    """Probe reads: tree.py has no loop that could hang on the acyclic trees of the model, so no timer."""
-    try:
-        return fn(), None
-    except Exception as ex:     # noqa: anything the code raises is an outcome
-        ex.__traceback__ = None
-        return None, ex
-
-
 class ResourcesAdapter:
     def __init__(self, desper, probe=False, depth=2):
         self.desper = desper
         self.probe = probe
         self.depth = depth          # MaxDepth of the instance (not a state variable)
         self.paths = None
+        self._exp_cache = {}
         self.ResourceMap = desper.ResourceMap
         self.Handle = desper.Handle
         env_ref = self
@@ -116,6 +108,12 @@ class ResourcesAdapter:
         env.real = {n: REAL[c][0 if n == 'a' else 1] for n, c in cls.items()}
         env.cls = dict(cls)
         env.names = sorted(cls)
+        env.abstract = {r: n for n, r in env.real.items()}
+        sep = self.ResourceMap.split_char
+        env.probes = [('/'.join(p), sep.join(env.real.get(n, n) for n in p), [env.real.get(n, n) for n in p])
+                      for p in self._paths()]
+        # white-box facets only while the attributes they read exist
+        self.wb = hasattr(env.maps[env.order[0]], 'handles') and hasattr(env.maps[env.order[0]].handles, 'maps')
 
     def _paths(self):
         """Probe paths: every path over the alphabet up to the depth bound, plus names that are never assigned."""
@@ -133,24 +131,6 @@ class ResourcesAdapter:
         return self.ResourceMap.split_char.join(r.get(n, n) for n in path)
 
     # -- identity -----------------------------------------------------------------------------
-    def _name_of(self, obj):
-        env = self.env
-        for k, o in env.maps.items():
-            if o is obj:
-                return k
-        for k, o in env.handles.items():
-            if o is obj:
-                return k
-        if obj is None:
-            return 'none'
-        return '?' + type(obj).__name__
-
-    def _abstract(self, realname):
-        for n, r in self.env.real.items():
-            if r == realname:
-                return n
-        return '?' + str(realname)
-
     def _val(self, v):
         """Which load product is v?  All (handle, serial) pairs it is identical to."""
         out = set()
@@ -210,9 +190,10 @@ class ResourcesAdapter:
         env = self.env
         env.snaps[src_id] = snap
         src = env.maps[src_id]
+        ids = self._ids()
         for realname, sub in list(getattr(src, 'maps', {}).items()):
-            sid = self._name_of(sub)
-            if sid.startswith('?'):
+            sid = ids.get(id(sub))
+            if sid is None:
                 continue
             try:
                 node = snap.get(realname)
@@ -234,6 +215,10 @@ class ResourcesAdapter:
             call = lambda: m.handles.maps.insert(0, {})
         elif name == 'Clear':
             call = maps[args[0]].clear
+            try:        # the direct children, as the real map lists them
+                kids = list(maps[args[0]].maps.values()) + list(maps[args[0]].handles.values())
+            except Exception:
+                kids = None
         elif name == 'Seal':
             call = lambda: None
         elif name == 'Call':
@@ -275,129 +260,215 @@ class ResourcesAdapter:
         if name == 'Clear':
             mp = maps[args[0]]
             obs['empty_after_clear'] = (not mp.maps) and (not mp.handles)
+            if kids is not None:
+                ids = self._ids()
+                obs['detached'] = tuple(sorted((ids.get(id(c), '?'), ids.get(id(getattr(c, 'parent', None)), '?'),
+                                                'none' if getattr(c, 'key', None) is None else str(c.key)) for c in kids))
         self._observe(obs)
         return obs
 
     # -- observation ---------------------------------------------------------------------------
-    def _den(self, v):
-        c = self._classify(v)
-        if c[0] == 'map':
-            return ('m', c[1])
-        if c[0] == 'handle':
-            return ('h', c[1])
-        if c[0] == 'default':
-            return 'absent'
-        return ('?', c[0])
+    # Denotation facets are sorted tuples (map, 'a/b', kind, id) of the paths that denote something
+    # (kind 'h' handle / 'm' map / 'exc' unexpected exception / '?' unknown object); absent paths are left out.
 
-    def _loaded_den(self, v):
-        """A reading access returned v right after all handles were cleared: the handle that loaded names it."""
+    def _ids(self):
+        """Identity map object -> pool id (keys are id() of live objects: `is` with a dictionary)."""
         env = self.env
-        for k, o in env.maps.items():
-            if o is v:
-                return ('m', k) if not env.loaded else ('?', 'map+load')
+        d = {id(o): k for k, o in env.maps.items()}
+        d.update((id(o), k) for k, o in env.handles.items())
+        d[id(None)] = 'none'
+        return d
+
+    def _loaded_den(self, v, ids):
+        """A read returned v right after all handles were cleared: the one load() that ran names the handle."""
+        env = self.env
+        k = ids.get(id(v))
+        if k is not None and k in env.maps:
+            return ('m', k) if not env.loaded else ('?', 'map+load')
         if len(env.loaded) == 1:
             h = env.handles[env.loaded[0]]
-            if h.products and h.products[-1] is v:
-                return ('h', h.name)
-            return ('?', 'foreign value')
+            return ('h', h.name) if h.products and h.products[-1] is v else ('?', 'foreign value')
         return ('?', 'loads=%d' % len(env.loaded))
-
-    def _fresh_probe(self):
-        for h in self.env.handles.values():
-            h.clear()
-        self.env.loaded = []
 
     def _observe(self, obs):
         env = self.env
-        paths = self._paths()
+        ids = self._ids()
+        maps = sorted(env.maps.items())
+        probes = env.probes
+        handles = list(env.handles.values())
+        Handle = self.Handle
         # get(path, SENTINEL): never loads
-        den_get = {}
-        for mid, m in env.maps.items():
-            for p in paths:
-                v, ex = _try(lambda: m.get(self._key(p), SENTINEL))
-                den_get[(mid, p)] = ('exc', exc_name(ex)) if ex is not None else self._den(v)
-        obs['den_get'] = den_get
+        out = []
+        for mid, m in maps:
+            for pstr, key, _parts in probes:
+                try:
+                    v = m.get(key, SENTINEL)
+                except Exception as ex:     # noqa
+                    out.append((mid, pstr, 'exc', type(ex).__name__))
+                    continue
+                if v is not SENTINEL:
+                    k = ids.get(id(v))
+                    out.append((mid, pstr, '?', type(v).__name__) if k is None or k == 'none' else
+                               (mid, pstr, 'm' if k in env.maps else 'h', k))
+        obs['den_get'] = tuple(sorted(out))
         # back-links of everything reachable by walking the real tables
-        links = []
-        seen = []
-        for mid, m in env.maps.items():
-            self._walk_links(mid, m, links, seen)
+        links, seen = [], set()
+        for mid, m in maps:
+            self._walk_links(mid, m, links, seen, ids)
         obs['links'] = tuple(sorted(links))
         # white box (skipped when the attributes are gone): the ChainMap layers
+        ab = env.abstract
         try:
-            obs['wb_layers'] = {mid: tuple(tuple(sorted((self._abstract(k), self._name_of(h)) for k, h in l.items()))
-                                           for l in m.handles.maps) for mid, m in env.maps.items()}
+            obs['wb_layers'] = tuple((mid, tuple(tuple(sorted((ab.get(k, k), ids.get(id(h), '?')) for k, h in l.items()))
+                                                 for l in m.handles.maps)) for mid, m in maps)
         except Exception:
             obs['wb_layers'] = None
         if self.probe:
-            den_item, den_chain, den_call = {}, {}, {}
-            for mid, m in env.maps.items():
-                for p in paths:
-                    k = (mid, p)
-                    self._fresh_probe()
-                    v, ex = _try(lambda: m[self._key(p)])
-                    den_item[k] = ('absent' if isinstance(ex, KeyError) else ('exc', exc_name(ex))) if ex is not None \
-                        else self._loaded_den(v)
-                    self._fresh_probe()
-
-                    def chain():
-                        cur = m
-                        for n in p:
-                            cur = cur[self._key((n,))]
-                        return cur
-                    v, ex = _try(chain)
-                    # a handle in the middle of the chain is loaded and its value indexed: some error, any class
-                    den_chain[k] = 'absent' if ex is not None else self._loaded_den(v)
-                    self._fresh_probe()
-
-                    def via_get():
-                        r = m.get(self._key(p))
-                        if r is None:
-                            return SENTINEL
-                        return r() if isinstance(r, self.Handle) else r
-                    v, ex = _try(via_get)
-                    den_call[k] = ('exc', exc_name(ex)) if ex is not None else \
-                        ('absent' if v is SENTINEL else self._loaded_den(v))
-            obs['den_item'], obs['den_chain'], obs['den_call'] = den_item, den_chain, den_call
+            item, chain, call = [], [], []
+            for mid, m in maps:
+                for pstr, key, parts in probes:
+                    # m['a/b']
+                    for h in handles:
+                        h.clear()
+                    env.loaded = []
+                    try:
+                        v = m[key]
+                    except KeyError:
+                        pass
+                    except Exception as ex:     # noqa
+                        item.append((mid, pstr, 'exc', type(ex).__name__))
+                    else:
+                        item.append((mid, pstr) + self._loaded_den(v, ids))
+                    # m['a']['b']: a handle in the middle is loaded and its value indexed — some error, any class
+                    for h in handles:
+                        h.clear()
+                    env.loaded = []
+                    try:
+                        v = m
+                        for k1 in parts:
+                            v = v[k1]
+                    except Exception:           # noqa
+                        pass
+                    else:
+                        chain.append((mid, pstr) + self._loaded_den(v, ids))
+                    # m.get('a/b')()  (a map is not called; the default None means absent)
+                    for h in handles:
+                        h.clear()
+                    env.loaded = []
+                    try:
+                        v = m.get(key)
+                        if v is None:
+                            continue
+                        if isinstance(v, Handle):
+                            v = v()
+                    except Exception as ex:     # noqa
+                        call.append((mid, pstr, 'exc', type(ex).__name__))
+                    else:
+                        call.append((mid, pstr) + self._loaded_den(v, ids))
+            obs['den_item'], obs['den_chain'], obs['den_call'] = tuple(sorted(item)), tuple(sorted(chain)), tuple(sorted(call))
         else:
             obs['cached'] = {hn: h.cached for hn, h in env.handles.items()}
             obs['nloads'] = {hn: len(h.products) for hn, h in env.handles.items()}
         # the snapshot, through get (does not load)
         sm = []
-        for sid, node in env.snaps.items():
+        for sid, node in sorted(env.snaps.items()):
+            sids = {id(o): k for k, o in env.snaps.items()}
             for n in env.names + ['zz']:
-                rn = env.real.get(n, n)
-                v, ex = _try(lambda: node.get(rn))
-                if ex is not None:
-                    sm.append((sid, n, 'absent', '-'))
+                try:
+                    v = node.get(env.real.get(n, n))
+                except Exception:               # noqa: absent names raise (AttributeError today)
+                    continue
+                if id(v) in sids:
+                    sm.append((sid, n, 'snap', sids[id(v)]))
+                elif ids.get(id(v)) in env.handles:
+                    sm.append((sid, n, 'handle', ids[id(v)]))
                 else:
-                    c = self._classify(v)
-                    sm.append((sid, n, c[0], c[1] if c[0] in ('handle', 'snap') else '?'))
-        obs['smirror'] = tuple(sorted(sm))
+                    sm.append((sid, n, '?', type(v).__name__))
+        obs['smirror'] = tuple(sm)
 
-    def _walk_links(self, mid, m, links, seen):
-        if any(s is m for s in seen):
+    def _walk_links(self, mid, m, links, seen, ids):
+        if id(m) in seen:
             return
-        seen.append(m)
+        seen.add(id(m))
+        ab = self.env.abstract
         try:
             subs = list(m.maps.items())
             hs = list(m.handles.items())
         except Exception:
             links.append((mid, '?', 'unreadable', '?', '?', '?'))
             return
-        for k, sub in subs:
-            sid = self._name_of(sub)
-            links.append((mid, self._abstract(k), 'm', sid, self._name_of(getattr(sub, 'parent', None)),
-                          self._abstract(getattr(sub, 'key', None)) if getattr(sub, 'key', None) is not None else 'none'))
-            if sid.startswith('?') and isinstance(sub, self.ResourceMap):
-                self._walk_links(sid, sub, links, seen)
-        for k, h in hs:
-            links.append((mid, self._abstract(k), 'h', self._name_of(h), self._name_of(getattr(h, 'parent', None)),
-                          self._abstract(getattr(h, 'key', None)) if getattr(h, 'key', None) is not None else 'none'))
+        for kind, items in (('m', subs), ('h', hs)):
+            for k, c in items:
+                cid = ids.get(id(c)) or '?' + type(c).__name__
+                par = getattr(c, 'parent', None)
+                ck = getattr(c, 'key', None)
+                links.append((mid, ab.get(k, '?' + str(k)), kind, cid, ids.get(id(par)) or '?' + type(par).__name__,
+                              'none' if ck is None else ab.get(ck, '?' + str(ck))))
+                if kind == 'm' and cid.startswith('?') and isinstance(c, self.ResourceMap):
+                    self._walk_links(cid, c, links, seen, ids)     # a map the harness could not bind
 
     # -- expectation ---------------------------------------------------------------------------
+    def _expect_state(self, post):
+        """Facets that depend on the post-state only (cached per state object: the graph is immortal)."""
+        hit = self._exp_cache.get(id(post))
+        if hit is not None:
+            return hit
+        maps = {m: dict(fmap(v)) for m, v in fmap(post['maps']).items()}
+        layers = {m: [dict(fmap(l)) for l in _seq(v)] for m, v in fmap(post['layers']).items()}
+        vis = {}
+        for m, ls in layers.items():
+            d = {}
+            for l in reversed(ls):
+                d.update(l)
+            vis[m] = d
+        parent, key = fmap(post['parent']), fmap(post['key'])
+        den = []
+        for m in sorted(maps):
+            for pstr, _key, _parts in self.env.probes:
+                p = pstr.split('/')
+                cur = m
+                for n in p[:-1]:
+                    cur = maps[cur].get(n)
+                    if cur is None:
+                        break
+                else:
+                    if p[-1] in vis[cur]:
+                        den.append((m, pstr, 'h', vis[cur][p[-1]]))
+                    elif p[-1] in maps[cur]:
+                        den.append((m, pstr, 'm', maps[cur][p[-1]]))
+        den = tuple(sorted(den))
+        links = []
+        for m in maps:
+            links += [(m, n, 'm', c, parent[c], key[c]) for n, c in maps[m].items()]
+            links += [(m, n, 'h', c, parent[c], key[c]) for n, c in vis[m].items()]
+        exp = {'den_get': den, 'links': tuple(sorted(links)),
+               'wb_layers': tuple((m, tuple(tuple(sorted(l.items())) for l in layers[m])) for m in sorted(layers))}
+        if self.probe:
+            exp['den_item'] = exp['den_chain'] = exp['den_call'] = den
+        else:
+            exp['loaded'] = tuple(sorted(post['loadedNow']))
+            exp['cached'] = dict(fmap(post['cached']))
+            exp['nloads'] = dict(fmap(post['gen']))
+        sm = []
+        root = post['snapRoot']
+        if root != 'none':
+            sslot, sdict = fmap(post['sslot']), fmap(post['sdict'])
+            nodes, todo = [], [root]
+            while todo:
+                x = todo.pop()
+                nodes.append(x)
+                todo += list(maps[x].values())
+            for x in sorted(nodes):
+                ent = dict(fmap(sdict[x]))
+                ent.update(fmap(sslot[x]))
+                sm += [(x, n, 'handle' if ent[n][0] == 'h' else 'snap', ent[n][1]) for n in self.env.names if n in ent]
+        exp['smirror'] = tuple(sm)
+        exp['_vis'] = vis
+        exp['_maps'] = maps
+        self._exp_cache[id(post)] = exp
+        return exp
+
     def expect(self, name, args, pre, post):
-        env = self.env
         r = post['ret']
         kind = r[0]
         if kind == 'none':
@@ -412,70 +483,15 @@ class ResourcesAdapter:
             ret = ('exc', 'KeyError') if r[1] == 'KeyError' else Raises()
         else:
             raise AssertionError('unknown ret ' + repr(r))
-        exp = {'ret': ret}
+        exp = {k: v for k, v in self._expect_state(post).items() if k[0] != '_'}
+        exp['ret'] = ret
+        if not self.wb:
+            del exp['wb_layers']
         if name == 'Clear':
             exp['empty_after_clear'] = True
-        maps = {m: dict(fmap(v)) for m, v in fmap(post['maps']).items()}
-        layers = {m: [dict(fmap(l)) for l in _seq(v)] for m, v in fmap(post['layers']).items()}
-        vis = {}
-        for m, ls in layers.items():
-            d = {}
-            for l in reversed(ls):
-                d.update(l)
-            vis[m] = d
-        parent, key = fmap(post['parent']), fmap(post['key'])
-
-        def den(m, p):
-            cur = m
-            for n in p[:-1]:
-                cur = maps[cur].get(n)
-                if cur is None:
-                    return 'absent'
-            l = p[-1]
-            if l in vis[cur]:
-                return ('h', vis[cur][l])
-            if l in maps[cur]:
-                return ('m', maps[cur][l])
-            return 'absent'
-
-        paths = self._paths()
-        d = {(m, p): den(m, p) for m in maps for p in paths}
-        exp['den_get'] = d
-        links = []
-        for m in maps:
-            for n, c in maps[m].items():
-                links.append((m, n, 'm', c, parent[c], key[c]))
-            for n, c in vis[m].items():
-                links.append((m, n, 'h', c, parent[c], key[c]))
-        exp['links'] = tuple(sorted(links))
-        if all(hasattr(o, 'handles') and hasattr(o.handles, 'maps') for o in env.maps.values()):
-            exp['wb_layers'] = {m: tuple(tuple(sorted(l.items())) for l in ls) for m, ls in layers.items()}
-        if self.probe:
-            exp['den_item'] = d
-            exp['den_chain'] = d
-            exp['den_call'] = d
-        else:
-            exp['loaded'] = tuple(sorted(post['loadedNow']))
-            exp['cached'] = dict(fmap(post['cached']))
-            exp['nloads'] = dict(fmap(post['gen']))
-        sm = []
-        root = post['snapRoot']
-        if root != 'none':
-            sslot, sdict = fmap(post['sslot']), fmap(post['sdict'])
-            nodes, todo = [], [root]
-            while todo:
-                x = todo.pop()
-                nodes.append(x)
-                todo += list(maps[x].values())
-            for x in nodes:
-                ent = dict(fmap(sdict[x]))
-                ent.update(fmap(sslot[x]))
-                for n in env.names + ['zz']:
-                    if n in ent:
-                        sm.append((x, n, 'handle' if ent[n][0] == 'h' else 'snap', ent[n][1]))
-                    else:
-                        sm.append((x, n, 'absent', '-'))
-        exp['smirror'] = tuple(sorted(sm))
+            before = self._expect_state(pre)
+            kids = set(before['_maps'][args[0]].values()) | set(before['_vis'][args[0]].values())
+            exp['detached'] = tuple(sorted((c, 'none', 'none') for c in kids))
         return exp
 
 
@@ -486,6 +502,6 @@ def _seq(v):
     return [v[i] for i in sorted(v)]
 
 
-FACETS_TREE = {'ret', 'den_get', 'den_item', 'den_chain', 'den_call', 'links', 'empty_after_clear'}
+FACETS_TREE = {'ret', 'den_get', 'den_item', 'den_chain', 'den_call', 'links', 'empty_after_clear', 'detached'}
 FACETS_CACHE = {'ret', 'loaded', 'cached', 'nloads'}
 FACETS_STATIC = {'ret', 'smirror', 'loaded'}
